@@ -38,7 +38,17 @@ ENV_ALL = [
 ]
 
 
+PROLOGS = ['', '', '', '<!-- c -->', '<?pi x?>', '<?xml version="1.0"?>', '<?xml version="1.0"?><!-- c -->', '\n ', ' <!-- a --> ',
+           '<?xml version="1.0" encoding="UTF-8"?>\n<?p q?>\n', '\ufeff']
+
+
 def gen_entity_doc(rng, marker_path):
+    kind, doc = _gen_entity_doc(rng, marker_path)
+    prolog = rng.choice(PROLOGS)
+    return kind + ('+prolog' if prolog.strip() else ''), prolog + doc
+
+
+def _gen_entity_doc(rng, marker_path):
     kind = rng.choice(['internal', 'internal-nested', 'external-system', 'external-public', 'parameter',
                        'parameter-external', 'internal-unused', 'external-dtd', 'attr-default', 'billion'])
     if kind == 'internal':
